@@ -328,6 +328,8 @@ def apply_transforms(transaction, transforms):
             parsed = expr_parser.parse_expression(expr)
             evaluator = expr_parser.TransactionEvaluator(ctx)
             new_value = evaluator.evaluate(parsed)
+            # never store the repr of a generator object as the field text
+            new_value = expr_parser.materialize(new_value)
 
             # Update the field, preserving original in _raw_{field}
             field_name = field_path[6:]  # Remove "field." prefix
@@ -742,6 +744,8 @@ def _resolve_dynamic_tags(
                 tree = expr_parser.parse_expression(expr)
                 evaluator = expr_parser.TransactionEvaluator(ctx)
                 value = evaluator.evaluate(tree)
+                # never put the repr of a generator object into the tag set
+                value = expr_parser.materialize(value)
                 if value:  # Only add non-empty values
                     stripped = str(value).strip()
                     if stripped:  # Skip whitespace-only values
